@@ -300,6 +300,10 @@ def to_iter(x):
         return x
     if is_range(x):
         return RangeIter(x)
+    if isinstance(x, Enum) and x.variant in ("Some", "None"):
+        return SeqIter([x.fields[0]] if x.variant == "Some" else [])
+    if isinstance(x, MapObj):
+        return SeqIter([Tup([Ref(Cell(k)), Ref(c)]) for k, c in x.entries])
     if isinstance(x, (VecObj, SliceRef)):
         return SeqIter(slice_refs(as_slice(x)))
     raise Unsupported(f"not an iterator: {type(x)}")
@@ -371,6 +375,49 @@ def m_filter_map(it, callee, args, m):
     return LazyIter(gen())
 
 
+def m_flat_map(it, callee, args, m):
+    inner, clos = to_iter(args[0]), args[1]
+
+    def gen():
+        while True:
+            x = inner.next(it)
+            if x is None:
+                return
+            sub = to_iter(it.call_closure(clos, [x]))
+            while True:
+                y = sub.next(it)
+                if y is None:
+                    break
+                yield y
+    return LazyIter(gen())
+
+
+def m_array_into_iter(it, callee, args, m):
+    a = deref(args[0])
+    return SeqIter([c.v for c in a.elems])
+
+
+def int_lt(it, a, b):
+    return it.ctx.branch(z3.ULT(a.t, b.t) if not a.signed else a.t < b.t)
+
+
+def m_minmax(it, callee, args, m):
+    """itertools::Itertools::minmax over integers: NoElements / OneElement(x) / MinMax(min, max)"""
+    xs = drain(to_iter(args[0]), it)
+    vs = it.enums.get("MinMaxResult") or ["NoElements", "OneElement", "MinMax"]
+    if not xs:
+        return Enum("NoElements", vs.index("NoElements"), [])
+    if len(xs) == 1:
+        return Enum("OneElement", vs.index("OneElement"), [xs[0]])
+    lo = hi = xs[0]
+    for x in xs[1:]:
+        if int_lt(it, x, lo):
+            lo = x
+        elif not int_lt(it, x, hi):
+            hi = x
+    return Enum("MinMax", vs.index("MinMax"), [lo, hi])
+
+
 def m_zip(it, callee, args, m):
     a, b = to_iter(args[0]), to_iter(args[1])
 
@@ -431,6 +478,34 @@ def m_chain(it, callee, args, m):
                     break
                 yield x
     return LazyIter(gen())
+
+
+def m_tuple_windows(it, callee, args, m):
+    """itertools::Itertools::tuple_windows::<(T, T)>: overlapping pairs of consecutive items (items are cloned)"""
+    if not re.search(r"tuple_windows::<\(\w+, \w+\)>$", callee):
+        raise Unsupported("tuple_windows of arity != 2")
+    inner = to_iter(args[0])
+
+    def gen():
+        prev = inner.next(it)
+        if prev is None:
+            return
+        while True:
+            cur = inner.next(it)
+            if cur is None:
+                return
+            yield Tup([copy_val(prev), copy_val(cur)])
+            prev = cur
+    return LazyIter(gen())
+
+
+def m_opt_into_iter(it, callee, args, m):
+    o = args[0]
+    return SeqIter([o.fields[0]] if o.variant == "Some" else [])
+
+
+def m_range_inclusive_new(it, callee, args, m):
+    return Adt("RangeInclusive", [args[0], args[1]])
 
 
 def m_next(it, callee, args, m):
@@ -540,6 +615,65 @@ def m_opt_map(it, callee, args, m):
     return some(it.call_closure(args[1], [o.fields[0]])) if o.variant == "Some" else NONE()
 
 
+def m_opt_map_or(it, callee, args, m):
+    o = args[0]
+    return it.call_closure(args[2], [o.fields[0]]) if o.variant == "Some" else args[1]
+
+
+def m_opt_map_or_else(it, callee, args, m):
+    o = args[0]
+    return it.call_closure(args[2], [o.fields[0]]) if o.variant == "Some" else it.call_closure(args[1], [])
+
+
+def m_opt_unwrap_or_else(it, callee, args, m):
+    o = args[0]
+    return o.fields[0] if o.variant == "Some" else it.call_closure(args[1], [])
+
+
+def m_opt_and_then(it, callee, args, m):
+    o = args[0]
+    return it.call_closure(args[1], [o.fields[0]]) if o.variant == "Some" else NONE()
+
+
+def m_opt_or(it, callee, args, m):
+    return args[0] if args[0].variant == "Some" else args[1]
+
+
+def m_opt_filter(it, callee, args, m):
+    o = args[0]
+    if o.variant == "Some" and call_pred(it, args[1], [Ref(Cell(o.fields[0]))]):
+        return o
+    return NONE()
+
+
+def m_opt_is_some_and(it, callee, args, m):
+    o = args[0]
+    if o.variant != "Some":
+        return z3.BoolVal(False)
+    return it.call_closure(args[1], [o.fields[0]])
+
+
+def m_opt_as_ref(it, callee, args, m):
+    r = args[0]
+    o = deref(r)
+    if o.variant != "Some":
+        return NONE()
+    base = r
+    while isinstance(base, Ref) and isinstance(base.get(), Ref):
+        base = base.get()
+    return some(Ref(base.cell, base.path + (("downcast", "Some"), ("field", 0))))
+
+
+def m_opt_take(it, callee, args, m):
+    r = args[0]
+    base = r
+    while isinstance(base, Ref) and isinstance(base.get(), Ref):
+        base = base.get()
+    old = base.get()
+    base.set(NONE())
+    return old
+
+
 # ---- integers
 def m_int_max(it, callee, args, m):
     a, b = args
@@ -597,6 +731,222 @@ def m_sub_checked(it, callee, args, m):
     return Int(a.t - b.t, a.bits, a.signed)
 
 
+def val_eq(it, a, b):
+    """structural equality of two values, decided by forking where symbolic (what a derived PartialEq computes)"""
+    a, b = deref(a), deref(b)
+    if isinstance(a, Int) and isinstance(b, Int):
+        return it.ctx.branch(a.t == b.t)
+    if z3.is_bool(a) and z3.is_bool(b):
+        return it.ctx.branch(a == b)
+    if isinstance(a, Enum) and isinstance(b, Enum):
+        if a.idx != b.idx:
+            return False
+        return all(val_eq(it, x, y) for x, y in zip(a.fields, b.fields))
+    if isinstance(a, Tup) and isinstance(b, Tup):
+        return all(val_eq(it, x, y) for x, y in zip(a.items, b.items))
+    if isinstance(a, Adt) and isinstance(b, Adt):
+        return all(val_eq(it, x, y) for x, y in zip(a.fields, b.fields))
+    if isinstance(a, str) and isinstance(b, str):
+        return a == b
+    if isinstance(a, VecObj) and isinstance(b, VecObj):
+        if len(a.elems) != len(b.elems):
+            return False
+        return all(val_eq(it, x.v, y.v) for x, y in zip(a.elems, b.elems))
+    raise Unsupported(f"equality of {type(a)} and {type(b)}")
+
+
+def m_slice_contains(it, callee, args, m):
+    sl = as_slice(args[0])
+    for i in range(len(sl)):
+        if val_eq(it, sl.vec.elems[sl.lo + i].v, args[1]):
+            return z3.BoolVal(True)
+    return z3.BoolVal(False)
+
+
+# ---- char / String / integer parsing
+def char_in(c, lo, hi):
+    return z3.And(z3.UGE(c.t, ord(lo)), z3.ULE(c.t, ord(hi)))
+
+
+def m_is_ascii_hexdigit(it, callee, args, m):
+    c = deref(args[0])
+    return z3.Or(char_in(c, "0", "9"), char_in(c, "a", "f"), char_in(c, "A", "F"))
+
+
+def m_is_ascii_digit(it, callee, args, m):
+    return char_in(deref(args[0]), "0", "9")
+
+
+def m_is_ascii_alphanumeric(it, callee, args, m):
+    c = deref(args[0])
+    return z3.Or(char_in(c, "0", "9"), char_in(c, "a", "z"), char_in(c, "A", "Z"))
+
+
+def m_is_ascii_alphabetic(it, callee, args, m):
+    c = deref(args[0])
+    return z3.Or(char_in(c, "a", "z"), char_in(c, "A", "Z"))
+
+
+_fresh = [0]
+
+
+def fresh_bool(tag):
+    _fresh[0] += 1
+    return z3.Bool(f"{tag}!{_fresh[0]}")
+
+
+def m_is_alphanumeric(it, callee, args, m):
+    """char::is_alphanumeric: exact on ASCII; for other chars the Unicode tables are not modelled - any answer
+    is possible (a fresh Boolean), an over-approximation"""
+    c = deref(args[0])
+    ascii_ = z3.ULE(c.t, 0x7F)
+    exact = z3.Or(char_in(c, "0", "9"), char_in(c, "a", "z"), char_in(c, "A", "Z"))
+    return z3.If(ascii_, exact, fresh_bool("is_alphanumeric"))
+
+
+def m_is_alphabetic(it, callee, args, m):
+    c = deref(args[0])
+    return z3.If(z3.ULE(c.t, 0x7F), z3.Or(char_in(c, "a", "z"), char_in(c, "A", "Z")), fresh_bool("is_alphabetic"))
+
+
+def m_is_numeric(it, callee, args, m):
+    c = deref(args[0])
+    return z3.If(z3.ULE(c.t, 0x7F), char_in(c, "0", "9"), fresh_bool("is_numeric"))
+
+
+class StringObj:
+    """String / &str: a list of chars (concrete length, symbolic contents)"""
+    heap = True
+
+    def __init__(self, chars):
+        self.chars = list(chars)
+
+
+def m_collect_string(it, callee, args, m):
+    return StringObj([copy_val(deref(x)) for x in drain(to_iter(args[0]), it)])
+
+
+def m_string_deref(it, callee, args, m):
+    return deref(args[0])
+
+
+def m_string_len(it, callee, args, m):
+    """String::len is the UTF-8 byte length"""
+    s = deref(args[0])
+    total = z3.BitVecVal(0, 64)
+    for c in s.chars:
+        t = z3.ZeroExt(32, c.t)
+        total = total + z3.If(z3.ULT(t, 0x80), z3.BitVecVal(1, 64),
+                              z3.If(z3.ULT(t, 0x800), z3.BitVecVal(2, 64), z3.If(z3.ULT(t, 0x10000), z3.BitVecVal(3, 64), z3.BitVecVal(4, 64))))
+    return Int(total)
+
+
+def m_from_str_radix_u64(it, callee, args, m):
+    """u64::from_str_radix(s, 16): Err on empty input, on a non-hex-digit character and on overflow (an
+    optional leading '+' is not modelled: inputs containing '+' are rejected as unsupported)"""
+    s = deref(args[0])
+    radix = args[1]
+    if not z3.is_bv_value(z3.simplify(radix.t)) or z3.simplify(radix.t).as_long() != 16:
+        raise Unsupported("from_str_radix with radix != 16")
+    if not s.chars:
+        return Enum("Err", 1, ["ParseIntError"])
+    val = z3.BitVecVal(0, 64)
+    ok = z3.BoolVal(True)
+    for c in s.chars:
+        if it.ctx.ex.check(z3.And(*it.ctx.pc), c.t == ord("+")) == z3.sat and len(s.chars) > 1 and c is s.chars[0]:
+            raise Unsupported("from_str_radix input may start with '+'")
+        isd = z3.Or(char_in(c, "0", "9"), char_in(c, "a", "f"), char_in(c, "A", "F"))
+        d = z3.If(char_in(c, "0", "9"), c.t - ord("0"), z3.If(char_in(c, "a", "f"), c.t - ord("a") + 10, c.t - ord("A") + 10))
+        d64 = z3.ZeroExt(32, d)
+        no_ovf = z3.And(z3.ULE(val, z3.BitVecVal((1 << 60) - 1, 64)))  # val * 16 fits
+        nxt = val * 16 + d64
+        ok = z3.And(ok, isd, no_ovf)
+        val = nxt
+    if it.ctx.branch(ok):
+        return Enum("Ok", 0, [Int(val)])
+    return Enum("Err", 1, ["ParseIntError"])
+
+
+def m_result_unwrap(it, callee, args, m):
+    r = args[0]
+    if r.variant == "Ok":
+        return r.fields[0]
+    it.panics.append(("called `Result::unwrap()` on an `Err` value", "Result::unwrap", it.ctx.ex.solver.model() if it.ctx.ex.check() == z3.sat else None))
+    raise PathEnd()
+
+
+def m_result_ok(it, callee, args, m):
+    r = args[0]
+    return some(r.fields[0]) if r.variant == "Ok" else NONE()
+
+
+# ---- maps and caches
+class MapObj:
+    """BTreeMap<K, V> with concrete key order: a list of [key, value-cell] entries"""
+    heap = True
+
+    def __init__(self, entries):
+        self.entries = [[k, v if isinstance(v, Cell) else Cell(v)] for k, v in entries]
+
+
+def m_btree_iter_mut(it, callee, args, m):
+    mp = deref(args[0])
+    return SeqIter([Tup([Ref(Cell(k)), Ref(c)]) for k, c in mp.entries])
+
+
+class LruObj:
+    """lru::LruCache<K, V>: an association list, most recent last. Eviction is not modelled (a cache that
+    forgets entries only turns hits into misses)."""
+    heap = True
+
+    def __init__(self):
+        self.entries = []  # [key, Cell(value)]
+
+
+def m_lru_get(it, callee, args, m):
+    c = deref(args[0])
+    key = deref(args[1])
+    for k, cell in c.entries:
+        if val_eq(it, k, key):
+            return some(Ref(cell))
+    return NONE()
+
+
+def m_lru_put(it, callee, args, m):
+    c = deref(args[0])
+    key, val = args[1], args[2]
+    for ent in c.entries:
+        if val_eq(it, ent[0], key):
+            old = ent[1].v
+            ent[1] = Cell(val)
+            return some(old)
+    c.entries.append([key, Cell(val)])
+    return NONE()
+
+
+def m_into_smallvec(it, callee, args, m):
+    sl = as_slice(args[0])
+    return VecObj([copy_val(sl.vec.elems[sl.lo + i].v) for i in range(len(sl))])
+
+
+def m_vec_extend_vec(it, callee, args, m):
+    v = deref(args[0])
+    src = args[1]
+    if isinstance(src, VecObj):
+        v.elems.extend(src.elems)
+        return ()
+    for x in drain(to_iter(src), it):
+        v.elems.append(Cell(x))
+    return ()
+
+
+def m_vec_append(it, callee, args, m):
+    v, o = deref(args[0]), deref(args[1])
+    v.elems.extend(o.elems)
+    o.elems = []
+    return ()
+
+
 def m_identity(it, callee, args, m):
     return args[0]
 
@@ -611,7 +961,10 @@ def deep_clone(v):
     if isinstance(v, Tup):
         return Tup([deep_clone(x) for x in v.items])
     if isinstance(v, Adt):
-        return Adt(v.name, [deep_clone(x) for x in v.fields])
+        a = Adt(v.name, [deep_clone(x) for x in v.fields])
+        if hasattr(v, "origin"):
+            a.origin = v.origin
+        return a
     if isinstance(v, Enum):
         return Enum(v.variant, v.idx, [deep_clone(x) for x in v.fields])
     return v
@@ -705,7 +1058,7 @@ def m_vec_retain(it, callee, args, m):
     v = deref(args[0])
     clos = args[1]
     cell = Cell(clos)
-    name = it.closure_fn(clos.name)
+    name = it.closure_fn(clos)
     fn = it.get_fn(name)
     selfarg = Ref(cell) if fn.params[0][1].startswith("&") else clos
     kept = []
@@ -736,6 +1089,8 @@ def m_vec_truncate(it, callee, args, m):
 
 IT = r"(?:<.* as (?:Iterator|DoubleEndedIterator|ExactSizeIterator|IntoIterator)>|Iterator|DoubleEndedIterator)"
 MODELS = [
+    (r"^<\[.*; \d+\] as IntoIterator>::into_iter$", lambda it, c, a, m: m_array_into_iter(it, c, a, m)),
+    (r"^<Option<.*> as IntoIterator>::into_iter$", lambda it, c, a, m: m_opt_into_iter(it, c, a, m)),
     (r"^Vec::<.*>::len$|^VecDeque::<.*>::len$|^core::slice::<impl \[.*\]>::len$", m_vec_len),
     (r"^Vec::<.*>::is_empty$|^VecDeque::<.*>::is_empty$|^core::slice::<impl \[.*\]>::is_empty$", m_is_empty),
     (r"^Vec::<.*>::new$|^Vec::<.*>::with_capacity$", m_vec_new),
@@ -756,10 +1111,14 @@ MODELS = [
     (r"^core::slice::<impl \[.*\]>::last$", m_slice_last),
     (r"^core::slice::<impl \[.*\]>::get::<usize>$", m_slice_get),
     (r"^core::slice::<impl \[.*\]>::swap$", m_slice_swap),
+    (r"^core::slice::<impl \[.*\]>::contains$", m_slice_contains),
     (r"^std::slice::<impl \[.*\]>::sort_by_key::<|^core::slice::<impl \[.*\]>::sort_unstable_by_key::<|^std::slice::<impl \[.*\]>::sort_by_cached_key::<", m_sort_by_key),
     (r"^Vec::<.*>::retain::<", m_vec_retain),
     (r"^Vec::<.*>::extend_from_slice$", m_extend_from_slice),
     (IT + r"::peekable$", m_peekable),
+    (r"^<.* as Itertools>::tuple_windows::<", m_tuple_windows),
+    (r"^<Option<.*> as IntoIterator>::into_iter$", m_opt_into_iter),
+    (r"^RangeInclusive::<.*>::new$", m_range_inclusive_new),
     (r"^Peekable::<.*>::peek$", m_peek),
     (r"^<(Rc|Arc)<.*> as Deref>::deref$", m_rc_deref),
     (IT + r"::into_iter$", m_into_iter),
@@ -769,6 +1128,9 @@ MODELS = [
     (IT + r"::filter::<", m_filter),
     (IT + r"::filter_map::<", m_filter_map),
     (IT + r"::zip::<", m_zip),
+    (IT + r"::flat_map::<", m_flat_map),
+    (r"^<\[.*; \d+\] as IntoIterator>::into_iter$", m_array_into_iter),
+    (r"^<.* as Itertools>::minmax$", m_minmax),
     (IT + r"::skip$", m_skip),
     (IT + r"::take$", m_take),
     (IT + r"::(cloned|copied)::<", m_cloned),
@@ -789,6 +1151,15 @@ MODELS = [
     (r"^Option::<.*>::unwrap_or$", m_opt_unwrap_or),
     (r"^Option::<.*>::(copied|cloned)$", m_opt_copied),
     (r"^Option::<.*>::map::<", m_opt_map),
+    (r"^Option::<.*>::map_or::<", m_opt_map_or),
+    (r"^Option::<.*>::map_or_else::<", m_opt_map_or_else),
+    (r"^Option::<.*>::unwrap_or_else::<", m_opt_unwrap_or_else),
+    (r"^Option::<.*>::and_then::<", m_opt_and_then),
+    (r"^Option::<.*>::or$", m_opt_or),
+    (r"^Option::<.*>::filter::<", m_opt_filter),
+    (r"^Option::<.*>::is_some_and::<", m_opt_is_some_and),
+    (r"^Option::<.*>::(as_ref|as_mut)$", m_opt_as_ref),
+    (r"^Option::<.*>::take$", m_opt_take),
     (r"^(std|core)::cmp::max::<usize>$|^<usize as Ord>::max$|^core::cmp::Ord::max$", m_int_max),
     (r"^(std|core)::cmp::min::<usize>$|^<usize as Ord>::min$|^core::cmp::Ord::min$", m_int_min),
     (r"^core::num::<impl usize>::saturating_sub$", m_saturating_sub),
@@ -796,6 +1167,28 @@ MODELS = [
     (r"^core::num::<impl usize>::wrapping_add$", m_wrapping_add),
     (r"^core::num::<impl usize>::checked_sub$", m_checked_sub),
     (r"^<.* as Clone>::clone$", m_clone),
+    (r"^<&mut BTreeMap<.*> as IntoIterator>::into_iter$", m_btree_iter_mut),
+    (r"^<btree_map::IterMut<.*> as Iterator>::next$", m_next),
+    (r"^LruCache::<.*>::get::<", m_lru_get),
+    (r"^LruCache::<.*>::put$", m_lru_put),
+    (r"^<&\[char\] as Into<SmallVec<\[char; \d+\]>>>::into$", m_into_smallvec),
+    (r"^<Vec<.*> as Extend<.*>>::extend::<", m_vec_extend_vec),
+    (r"^Vec::<.*>::append$", m_vec_append),
+    (r"^<&(mut )?Vec<.*> as IntoIterator>::into_iter$", lambda it, c, a, m: SeqIter(slice_refs(as_slice(a[0])))),
+    (r"^<std::slice::IterMut<'_, .*> as Iterator>::next$", m_next),
+    (r"^(core::)?char::methods::<impl char>::is_ascii_hexdigit$", m_is_ascii_hexdigit),
+    (r"^(core::)?char::methods::<impl char>::is_ascii_digit$", m_is_ascii_digit),
+    (r"^(core::)?char::methods::<impl char>::is_ascii_alphanumeric$", m_is_ascii_alphanumeric),
+    (r"^(core::)?char::methods::<impl char>::is_ascii_alphabetic$", m_is_ascii_alphabetic),
+    (r"^(core::)?char::methods::<impl char>::is_alphanumeric$", m_is_alphanumeric),
+    (r"^(core::)?char::methods::<impl char>::is_alphabetic$", m_is_alphabetic),
+    (r"^(core::)?char::methods::<impl char>::is_numeric$", m_is_numeric),
+    (IT + r"::collect::<(std::string::)?String>$", m_collect_string),
+    (r"^<(std::string::)?String as Deref>::deref$", m_string_deref),
+    (r"^(std::string::)?String::len$", m_string_len),
+    (r"^core::num::<impl u64>::from_str_radix$", m_from_str_radix_u64),
+    (r"^Result::<.*>::(unwrap|expect)$", m_result_unwrap),
+    (r"^Result::<.*>::ok$", m_result_ok),
     (r"^<&?(?:'\w+ )?usize as Add<&?(?:'\w+ )?usize>>::add$", m_add_checked),
     (r"^<&?(?:'\w+ )?usize as Sub<&?(?:'\w+ )?usize>>::sub$", m_sub_checked),
 ]
